@@ -18,7 +18,7 @@ def obligations(tier):
 META = dict(
     level="model_checking",
     bounds={"quick": "all live head sequences <= 3 heads + leaf variety + special shapes (incl. openers inside chunked strings), every truncation offset of each; data bytes symbolic",
-            "thorough": "<= 4 heads, DEBUG and NDEBUG"},
+            "thorough": "<= 4 heads (all of S(3), every accepted 4-head sequence, every 4th rejected and every 16th still-open 4-head sequence), DEBUG and NDEBUG"},
     assumptions=["allocations succeed (MEMERROR by refusal is C06; by nesting is C19)", "expected (code, position) sets come from lib/skeleton.py's reference decoder",
                  "latitude: a non-chunk item opened inside a chunked string admits eager SYNTAXERROR just past its head or whatever the continued parse reports (DESIGN C05)",
                  "functional obligation: pointer checks off here, decided in C01 on the same inputs"],
